@@ -233,14 +233,18 @@ pub fn jset(s: &std::collections::BTreeSet<u64>) -> String {
 // dies with a fatal signal inside the library, a handler prints one record so the driver can
 // attribute the crash instead of calling the run inconclusive.
 
-static CUR_OP: std::sync::atomic::AtomicPtr<u8> = std::sync::atomic::AtomicPtr::new(std::ptr::null_mut());
+static CUR_OP: std::sync::atomic::AtomicPtr<u8> =
+    std::sync::atomic::AtomicPtr::new(std::ptr::null_mut());
 static CUR_LEN: std::sync::atomic::AtomicUsize = std::sync::atomic::AtomicUsize::new(0);
 
 /// `what` = "<props>|<operation>", e.g. "C09,C01|UniqueArc::into_inner".
 #[inline]
 pub fn set_op(what: &'static str) {
     CUR_LEN.store(what.len(), std::sync::atomic::Ordering::Relaxed);
-    CUR_OP.store(what.as_ptr() as *mut u8, std::sync::atomic::Ordering::Relaxed);
+    CUR_OP.store(
+        what.as_ptr() as *mut u8,
+        std::sync::atomic::Ordering::Relaxed,
+    );
 }
 
 #[cfg(all(unix, not(miri)))]
